@@ -132,6 +132,7 @@ func c10Run(c *h.Ctx) {
 	po := PlayOpts{
 		Hands:    2 + c.R.Intn(3),
 		Churn:    Churn{BetweenP: 0.3, Rebuy: true, BuyIn: true, SitOut: true, ResumePaused: true},
+		NoJitter: false,
 		Gen:      h.GenOpts{MinSeats: 3, MaxSeats: 8, MinPlayers: 2},
 		Policies: []string{"random", "callstation", "aggro"},
 	}
@@ -151,13 +152,48 @@ func c10Run(c *h.Ctx) {
 		m.batch(p, e, kind+"-requested", allowed)
 		return nil
 	}
+	endKind := []string{"", "", "pause", "close"}[c.Case%4]
+	turnsSeen := 0
 	mon.BeforeAct = func(p *Play, e *h.Ev, gp int, pid string) bool {
 		if c.Failed() {
 			return false
 		}
 		gs := e.T.State.GameState
 		allowed := map[string][]string{pid: gs.Players[gp].AllowedActions}
-		return m.batch(p, e, "turn:"+gs.Status.Round, allowed)
+		if !m.batch(p, e, "turn:"+gs.Status.Round, allowed) {
+			return false
+		}
+		turnsSeen++
+		if endKind != "" && p.HandNo >= 2 && turnsSeen >= 3 {
+			// the table is paused / closed while the hand runs: no hand is being played any more, so even the
+			// player the hand was waiting on is refused, and nothing may change
+			s := p.SS.S
+			if endKind == "pause" {
+				s.TE.PauseTable()
+			} else {
+				s.TE.CloseTable()
+			}
+			time.Sleep(200 * time.Microsecond)
+			s.Drain(nil)
+			before := s.TableJSON()
+			be := p.SS.Rig.Count()
+			for _, a := range gs.Players[gp].AllowedActions {
+				chips := int64(0)
+				switch a {
+				case "bet":
+					chips = gs.Status.MiniBet
+				case "raise":
+					chips = gs.Status.CurrentWager + gs.Status.PreviousRaiseSize
+				}
+				if !m.probe(p, pid, "player-to-act-after-"+endKind, a, chips, "table-"+endKind+"d-mid-hand", before, 0, be) {
+					return false
+				}
+			}
+			c.Feature("probe:table-" + endKind + "d-mid-hand")
+			p.StopNow = true
+			return false
+		}
+		return true
 	}
 	mon.OnEvent = func(p *Play, e *h.Ev) {
 		if c.Failed() {
@@ -271,7 +307,7 @@ func c10Run(c *h.Ctx) {
 		return
 	}
 	c.FP(fmt.Sprintf("%+v", p.Cfg), c.Seed)
-	if p.Stalled && !c.Failed() {
+	if p.Stalled && !c.Failed() && !p.StopNow {
 		c.InconclusiveW(fmt.Sprintf("foreign: hand %d did not settle within the watchdog", p.HandNo), p.witness())
 		return
 	}
@@ -295,7 +331,7 @@ func init() {
 			return map[string]int{"quick": 1000, "thorough": 18000}[tier]
 		},
 		RequiredFeatures: func(string) []string {
-			return []string{"probe:turn:preflop:participant:fold", "probe:turn:flop:asked-player-other-kind:pass", "probe:blinds-requested:participant:pay", "probe:ready-requested:stranger:ready", "probe:no-hand-running:between-hands:call", "probe:turn:preflop:not-dealt-in:check", "probe:turn:preflop:asked-player-other-kind:ready"}
+			return []string{"probe:turn:preflop:participant:fold", "probe:turn:flop:asked-player-other-kind:pass", "probe:blinds-requested:participant:pay", "probe:ready-requested:stranger:ready", "probe:no-hand-running:between-hands:call", "probe:turn:preflop:not-dealt-in:check", "probe:turn:preflop:asked-player-other-kind:ready", "probe:table-paused-mid-hand", "probe:table-closed-mid-hand"}
 		},
 		CaseTimeout: 200e9,
 		Run:         c10Run,
